@@ -1,6 +1,10 @@
 #!/bin/bash
 # run every quick check with several seeds; print one line per (check, seed)
 cd "$(dirname "$0")/.."
+# with `vp run --with-repo`, point the snapshot's harness at the snapshot of the repository
+if [ -n "$VP_RUN_REPO" ]; then
+  sed -i "s#path = \"/repo\"#path = \"$VP_RUN_REPO\"#" harness/Cargo.toml
+fi
 ./check --build >/dev/null 2>&1
 for seed in "$@"; do
   for id in C01 C02 C03 C04 C05 C06 C07 C08 C09 C10 C11 C12 C13 C14 C15 C16 C17 C18 C19 C20; do
